@@ -35,8 +35,20 @@ def structural_side_check(run):
 def check(run):
     backends = BACKENDS
     run.bound('backends checked this run: %s' % ', '.join(backends))
+    from mirsym.interp import Unsupported
     for b in backends:
-        cands, P, code_det = insphere.check_backend(run, b, 'C11[%s]' % b, thorough=(run.tier == 'thorough'))
+        try:
+            cands, P, code_det = insphere.check_backend(run, b, 'C11[%s]' % b, thorough=(run.tier == 'thorough'))
+        except (Unsupported, engine.Inconclusive) as e:
+            # this backend's exact path contains an operation outside the big-integer model (floating point, bit tricks): the encoding cannot be
+            # built.  No solver verdict for it - unless the real function, built with that backend, already disagrees with the exact reference
+            # on adversarial samples (ties, tight clusters, layered coordinates with common trailing zero bits, large co-spherical sets)
+            bad = insphere.native_vs_reference(run.seed, 6000, backend=b)
+            if bad:
+                insphere.confirm_and_report(run, 'C11', bad[:3], 'C11[%s] (encoding not buildable: %s)' % (b, str(e)[:80]), backend=b)
+            else:
+                run.inconclusive.append('C11[%s]: %s' % (b, str(e)[:300]))
+            continue
         if cands:
             # native replay against a build of the replay crate with that backend feature
             insphere.confirm_and_report(run, 'C11', cands, 'C11[%s]' % b, backend=b)
